@@ -460,7 +460,7 @@ def scripted(kind, o, depth, inner_kinds, outcomes, commit_fail=()):
     spec = {'kind': kind, 'depth': depth, 'inner': list(inner_kinds[:depth - 1]), 'bodies': spec_bodies,
             'retry': o.get('retry', 0) if kind in ('decorator',) else 0,
             'allowed': o['allowed'] if kind in ('decorator', 'cm') else
-                       ({'yes': REDIRECT, 'raises': []} if kind == 'bottle' else {'yes': [], 'raises': []}),
+                       ({'yes': ['u6'], 'raises': []} if kind == 'bottle' else {'yes': [], 'raises': []}),   # Bottle: only a non-error HTTPResponse counts as success
             'retryable': o['retryable'] if kind == 'decorator' else {'yes': list(TX), 'raises': []},
             'commit_fail': list(commit_fail)}
     return {'prog': prog, 'env': env, 'spec': spec}
@@ -608,7 +608,7 @@ def grid(ctx, rng):
             if rng.random() < 0.15 and not inner: o['ser'] = True
             return o
         depth = len(inner) + 1
-        scripts = scripts3 if full else rng.sample(scripts3, 3)
+        scripts = rng.sample(scripts3, 40 if full else 3)
         for sc in scripts:
             cases.append(scripted('decorator', mk(), depth, inner, sc))
         if retry == 0:
